@@ -3,6 +3,7 @@ from __future__ import annotations
 import configparser
 import os
 import os.path
+import stat
 import typing
 
 from pygopherd import gopherentry
@@ -23,6 +24,14 @@ def has_fileno(fileobj: typing.Any) -> bool:
     except (AttributeError, OSError):
         return False
     return True
+
+
+def is_socket(fileobj: typing.Any) -> bool:
+    """True if fileobj's descriptor is a socket (a peer that can go away)."""
+    try:
+        return stat.S_ISSOCK(os.fstat(fileobj.fileno()).st_mode)
+    except (AttributeError, OSError, ValueError):
+        return False
 
 
 class VFS_Real:
